@@ -111,8 +111,9 @@ def get_literal_from_factory(obj: object) -> Optional[str]:
         return None
 
 
-_SINGLETONS = {None, Ellipsis, NotImplemented}
+_SINGLETONS = (None, Ellipsis, NotImplemented)
 
 
 def is_singleton(obj: object) -> bool:
-    return obj in _SINGLETONS or isinstance(obj, (bool, Enum))
+    # identity check, the object can be unhashable
+    return any(obj is singleton for singleton in _SINGLETONS) or isinstance(obj, (bool, Enum))
